@@ -307,6 +307,48 @@ theorem linearizable_m7_single_store (R : Routes) (hv : R.Valid) (hN : 0 < R.N) 
   exact ⟨hv2, s.log, rfl, hv2⟩
 
 
+/-! ### the response pool at and beyond its capacity
+
+  `ResponsePool::acquire` pops a pooled slot or — when the pool is EXHAUSTED — allocates a new one
+  (`Step.invokePooled` / `Step.invokeFresh`); `release` pushes the slot back or — when the pool is FULL
+  — drops it (`Step.retRelease` / `Step.retDrop`).  The model leaves both choices to the scheduler, so
+  every capacity (0, 1, …) and every fill level is among the executions the theorems quantify over. -/
+
+section pool
+variable {σ Req Resp : Type} [DecidableEq Resp] (step : σ → Req → σ × Resp) (route : Req → Nat) (s0 : σ)
+
+/-- **no reply is lost**, whatever the pool does: once no mailbox holds the message of a waiting
+    client any more, the response computed for ITS request is in ITS slot — also when the slot is a
+    fall-back allocation of an exhausted pool, and whatever other clients abandoned -/
+theorem reply_not_lost {pool : Nat} {s : Sys σ Req Resp} (hr : Reach step route s0 pool s)
+    (c id : Nat) (req : Req) (sid : Nat) (hc : s.client c = .waiting id req sid)
+    (hgone : ∀ i m, m ∈ s.mail i → m.id ≠ id) :
+    ∃ resp, s.slot sid = some resp ∧ (.lin id resp) ∈ s.log ∧ sid ∉ s.pool := by
+  obtain ⟨r, hi⟩ := reach_inv step route s0 hr
+  obtain ⟨_, _, h3, _, h5⟩ := hi.cl c id req sid hc
+  rcases h5 with ⟨b1, _, _⟩ | ⟨_, resp, b2, _, b4⟩
+  · exact absurd rfl (hgone _ _ b1)
+  · exact ⟨resp, b2, b4, h3⟩
+
+end pool
+
+/-- non-vacuity with an EMPTY pool (capacity exhausted from the start): two pooled requests both fall
+    back to fresh slots, the shard answers both, each client takes its own reply; the second slot is
+    released into the pool and REUSED by a third request, which again gets its own reply -/
+theorem exhausted_pool_reach : ∃ s, Reach echo (fun _ => 0) () 0 s ∧
+    history s.log = [.inv 0 10, .inv 1 20, .res 1 20, .res 0 10, .inv 2 30, .res 2 30] ∧ s.pool = [1] := by
+  have r0 : Reach echo (fun _ => 0) () 0 (Sys.init () 0) := Reach.init
+  have r1 := Reach.step r0 (Step.invokeFresh _ 0 10 rfl)
+  have r2 := Reach.step r1 (Step.invokeFresh _ 1 20 rfl)
+  have r3 := Reach.step r2 (Step.exec _ 0 ⟨0, 0, 10⟩ [⟨1, 1, 20⟩] rfl)
+  have r4 := Reach.step r3 (Step.exec _ 0 ⟨1, 1, 20⟩ [] rfl)
+  have r5 := Reach.step r4 (Step.retRelease _ 1 1 20 1 20 rfl rfl)
+  have r6 := Reach.step r5 (Step.retDrop _ 0 0 10 0 10 rfl rfl)
+  have r7 := Reach.step r6 (Step.invokePooled _ 0 30 1 [] rfl rfl)
+  have r8 := Reach.step r7 (Step.exec _ 0 ⟨2, 1, 30⟩ [] rfl)
+  have r9 := Reach.step r8 (Step.retRelease _ 0 2 30 1 30 rfl rfl)
+  exact ⟨_, r9, rfl, rfl⟩
+
 /-! ### decidability, non-vacuity, the refuted part -/
 
 def decLinMono : (pend : NMap Nat) → (t : Nat) → (l : List (Ev Req7 Reply)) → Decidable (LinMono pend t l)
